@@ -101,7 +101,7 @@ def run(pid, tier, replay=None):
         wd = V.workdir(pid)
         binary = V.build_harness(wd, pkg="./reg")
         return sweep(pid, tier, "tlv", [("parseloop", "ParseLoopMC.tla", PL_MC, 8, 900)], binary, wd,
-            [("TestRegRoundTrip", {"VERIF_VARIANTS": 90 if th else 30}, "reg_rt.ndjson")], "RegTrace.tla", REG_HEAD,
+            [("TestRegRoundTrip", {"VERIF_VARIANTS": 300 if th else 60}, "reg_rt.ndjson")], "RegTrace.tla", REG_HEAD,
             "every generated model with a public Parse function, discovered at check time by scanning the zz_generated.go files (tools/genreg); "
             "a type-directed reflection builder makes nil/empty/boundary/large variants of every field kind (nested structs, sequences, maps); each value is encoded, "
             "walked with an independent TLV reader, decoded contiguous and segmented and compared semantically; then an unrecognised element of each class "
